@@ -58,6 +58,7 @@ def handle (line : String) : String :=
   | "cdrt" :: args => Driver.PassP.handle "cdrt" args
   | "inltag" :: args => Driver.InlP.handle args
   | "inlscan" :: args => Driver.InlP.scanHandle args
+  | "inlcss" :: args => Driver.InlP.cssHandle args
   | "cdata" :: args => Driver.InlP.cdataHandle args
   | "mergestyle" :: args => Driver.InlP.mergeHandle args
   | _ => "bad-request"
